@@ -99,8 +99,17 @@ class RecObserver(Observer):
     def __init__(self, rec, idx):
         self.rec = rec
         self.idx = idx
+        self.received = 0
+
+    def __len__(self):
+        # observer 2 is a collection of what it has received (empty when it is attached): an observer is an observer
+        # whether or not it is "truthy"
+        if self.idx == 2:
+            return self.received
+        return 1
 
     def update(self, notification_type, data):
+        self.received += 1
         if notification_type == NotificationType.LOG_EVENT:
             text, level, flag = data
             self.rec.ev(["UPD", self.idx, "LOG", text, bool(flag)])
@@ -154,7 +163,7 @@ class Run:
     """
 
     def __init__(self, program, ids="test", draw=False, sched_uuid="", answers=None, imm=None,
-                 mutate=False, as_file=None, imm_other=None, imm_sf=None, reuse_event=None):
+                 mutate=False, as_file=None, imm_other=None, imm_sf=None, reuse_event=None, reseed=False):
         self.calls = []  # one record per external API call
         self.cur = None  # event list of the call in progress
         self.answers = []
@@ -170,6 +179,8 @@ class Run:
         self.reuse_event = reuse_event
         self._event = None
         self.mutate = mutate
+        self.kept_lists = []
+        self.reseed = reseed
         self.in_progress = []  # announcement indices whose completion is being delivered right now (a stack)
         self.announced = []  # service ids in announcement order
         self.pending = []  # indices into announced, not completed yet
@@ -249,6 +260,17 @@ class Run:
         return self.fns[key].on_notification
 
     def notified(self, _kind, _j, api):
+        if self.mutate == "late" and _j == 0:
+            # an engine that keeps the lists it was given and clears them when the next notification arrives
+            for lst in self.kept_lists:
+                try:
+                    lst.clear()
+                except Exception:  # noqa: BLE001
+                    pass
+            self.kept_lists = []
+        if self.reseed and _j == 0:
+            import random as _random
+            _random.seed(20240917)  # an application that seeds the global generator in its callbacks
         self.observe_running("%s notification of %s (listener %d)" % (_kind, api.task.name if _kind[0] == "t" else api.service.name, _j))
         if _kind[0] == "t":
             name = api.task.name
@@ -262,7 +284,9 @@ class Run:
             k = len(self.announced)
             self.announced.append(api.uuid)
             self.pending.append(k)
-            if self.mutate:
+            if self.mutate == "late":
+                self.kept_lists.append(api.input_parameters)
+            elif self.mutate:
                 self.hostile(api)
             if self.imm_other(k):
                 inprog = [j for j in self.in_progress if j != k]
@@ -281,8 +305,11 @@ class Run:
                 others = [j for j in self.pending if j not in self.in_progress]
                 if others:
                     self.complete(others[0], nested=True)
-            if self.mutate:
+            if self.mutate and self.mutate != "late":
                 self.hostile(api)
+        elif _j == 0 and self.mutate == "late":
+            if _kind in ("ts", "ss"):
+                self.kept_lists.append(api.input_parameters)
         elif _j == 0 and self.mutate:
             self.hostile(api)
 
